@@ -51,12 +51,16 @@ type Ctx struct {
 	quant    bool
 	nonzero  map[string]bool
 	sliceParts map[string][4]string
+	heapCellT map[string]types.Type // heap name -> Go type of one cell (nil for ghost)
+	heapDims  map[string]int        // 1: Array Int T, 2: Array Int (Array Int T) / map
+	heapKeyS  map[string]string     // second-dimension index sort (for element / map heaps)
 }
 
 func newCtx(P *Program) *Ctx {
 	c := &Ctx{P: P, declared: map[string]bool{}, sorts: map[string]string{}, structs: map[string]*types.Struct{},
 		heapSort: map[string]string{}, typeIDs: map[string]int{}, notes: map[string]bool{}, ordinals: map[string]int{},
-		strLits: map[string]bool{}, nonzero: map[string]bool{}, sliceParts: map[string][4]string{}}
+		strLits: map[string]bool{}, nonzero: map[string]bool{}, sliceParts: map[string][4]string{},
+		heapCellT: map[string]types.Type{}, heapDims: map[string]int{}, heapKeyS: map[string]string{}}
 	c.typeByID = append(c.typeByID, nil)
 	return c
 }
@@ -573,6 +577,7 @@ func (c *Ctx) fieldHeap(structT types.Type, i int) string {
 	name := fmt.Sprintf("F:%s#%d.%s", typeKey(structT), i, s.Field(i).Name())
 	if _, ok := c.heapSort[name]; !ok {
 		c.heapSort[name] = "(Array Int " + c.sortOf(s.Field(i).Type()) + ")"
+		c.heapCellT[name], c.heapDims[name] = s.Field(i).Type(), 1
 	}
 	return name
 }
@@ -581,6 +586,7 @@ func (c *Ctx) boxHeap(t types.Type) string {
 	name := "B:" + typeKey(t)
 	if _, ok := c.heapSort[name]; !ok {
 		c.heapSort[name] = "(Array Int " + c.sortOf(t) + ")"
+		c.heapCellT[name], c.heapDims[name] = t, 1
 	}
 	return name
 }
@@ -589,6 +595,7 @@ func (c *Ctx) elemHeap(elem types.Type) string {
 	name := "E:" + typeKey(elem)
 	if _, ok := c.heapSort[name]; !ok {
 		c.heapSort[name] = "(Array Int (Array Int " + c.sortOf(elem) + "))"
+		c.heapCellT[name], c.heapDims[name], c.heapKeyS[name] = elem, 2, "Int"
 	}
 	return name
 }
@@ -601,6 +608,7 @@ func (c *Ctx) mapHeaps(m *types.Map) (has, val, length string) {
 		c.heapSort[has] = "(Array Int (Array " + ks + " Bool))"
 		c.heapSort[val] = "(Array Int (Array " + ks + " " + c.sortOf(m.Elem()) + "))"
 		c.heapSort[length] = "(Array Int Int)"
+		c.heapCellT[val], c.heapDims[val], c.heapKeyS[val] = m.Elem(), 2, ks
 	}
 	return
 }
@@ -609,8 +617,32 @@ func (c *Ctx) globalHeap(pkg, name string, t types.Type) string {
 	h := "G:" + pkg + "." + name
 	if _, ok := c.heapSort[h]; !ok {
 		c.heapSort[h] = "(Array Int " + c.sortOf(t) + ")"
+		c.heapCellT[h], c.heapDims[h] = t, 1
 	}
 	return h
+}
+
+// heapWF states that every cell of heap array term h (of heap `name`) holds a well-formed value with
+// all references below watermark wm. Empty when the cell type holds no references or integers.
+func (c *Ctx) heapWF(name, h, wm string) string {
+	t := c.heapCellT[name]
+	if t == nil {
+		return ""
+	}
+	var body, vars, pat string
+	switch c.heapDims[name] {
+	case 1:
+		body = c.wf(t, "(select "+h+" r!)", wm)
+		vars, pat = "((r! Int))", "(select "+h+" r!)"
+	case 2:
+		body = c.wf(t, "(select (select "+h+" r!) k!)", wm)
+		vars, pat = "((r! Int) (k! "+c.heapKeyS[name]+"))", "(select (select "+h+" r!) k!)"
+	}
+	if body == "true" || body == "" {
+		return ""
+	}
+	c.quant = true
+	return fmt.Sprintf("(forall %s (! %s :pattern (%s)))", vars, body, pat)
 }
 
 func (c *Ctx) ghostVar(name, sortS string) string {
@@ -657,6 +689,14 @@ func (s *State) get(name string) string {
 		panic("unknown heap " + name)
 	}
 	t := s.c.declConst("H0:"+name, srt)
+	if !s.c.declared["wf:H0:"+name] {
+		s.c.declared["wf:H0:"+name] = true
+		if name != wmKey {
+			if q := s.c.heapWF(name, t, s.c.declConst("H0:"+wmKey, "Int")); q != "" {
+				s.c.decls = append(s.c.decls, "(assert "+q+")")
+			}
+		}
+	}
 	return t
 }
 
